@@ -501,5 +501,73 @@ func builtinPrograms() []*Program {
 				"  field child object:child.ChildState", "  field parent object:parent.ParentState", "}"),
 		},
 	})
+
+	// 10. file-level options of hand-written protos: two protos of one package that disagree on
+	// go_package / java options (legal: they are per-file options), next to a j5s file of the package.
+	pf := func(pkg string, opts []string, body ...string) string {
+		lines := []string{"syntax = \"proto3\";", "", "package " + pkg + ";", ""}
+		lines = append(lines, opts...)
+		lines = append(lines, "")
+		lines = append(lines, body...)
+		return strings.Join(lines, "\n") + "\n"
+	}
+	out = append(out, &Program{
+		Name:     "builtin/file_options",
+		Packages: []string{"shop.v1", "stock.v1"},
+		Files: map[string]string{
+			"shop/v1/legacy.proto": pf("shop.v1", []string{`option go_package = "github.com/example/monolith/gen/shop/v1/shop_pb";`, `option java_package = "com.example.monolith.shop";`, `option java_multiple_files = true;`},
+				"message LegacyAddress {", "  string line_1 = 1;", "  string postcode = 2;", "}"),
+			"shop/v1/money.proto": pf("shop.v1", []string{`option go_package = "github.com/example/shop/gen/shop/v1/shop_pb";`, `option java_package = "com.example.shop";`},
+				"message Money {", "  string currency = 1;", "  int64 units = 2;", "}"),
+			"shop/v1/zone.proto": pf("shop.v1", []string{`option go_package = "github.com/example/other/zone_pb";`, `option deprecated = true;`},
+				"message Zone {", "  string code = 1;", "}"),
+			"shop/v1/order.j5s":  j5s("package shop.v1", "", "object Order {", "  field orderId key:uuid", "  field total object:Money", "  field shipTo object:LegacyAddress", "  field zone object:Zone", "}"),
+			"shop/v1/basket.j5s": j5s("package shop.v1", "", "object Basket {", "  field basketId key:uuid", "  field orders array:object:Order", "}"),
+			"stock/v1/bin.proto": pf("stock.v1", []string{`option go_package = "github.com/example/shop/gen/stock/v1/stock_pb";`},
+				"message Bin {", "  string aisle = 1;", "}"),
+			"stock/v1/item.j5s": j5s("package stock.v1", "import shop.v1", "", "object Item {", "  field itemId key:uuid", "  field bin object:Bin", "  field price object:shop.v1.Money", "}"),
+		},
+	})
+
+	// 11. an entity whose commands are split over several command blocks (each becomes a service),
+	// next to an ordinary entity; a second package uses the state objects.
+	method := func(key, name string) []string {
+		return []string{"    method " + name + " {", "      httpMethod = \"POST\"", "      httpPath = \":" + key + "/" + strings.ToLower(name) + "\"", "      request {", "        field " + key + " key:id62", "        field note string", "      }",
+			"      response {", "        field accepted bool", "      }", "    }"}
+	}
+	cat := func(parts ...[]string) []string {
+		var l []string
+		for _, p := range parts {
+			l = append(l, p...)
+		}
+		return l
+	}
+	out = append(out, &Program{
+		Name:     "builtin/multi_command",
+		Packages: []string{"audit.v1", "shop.v1"},
+		Files: map[string]string{
+			"shop/v1/order.j5s": j5s(cat([]string{"package shop.v1", "", "entity Order {", "  key orderId key:id62 {", "    primary = true", "  }", "  data reference string", "  status OPEN", "  status CLOSED",
+				"  event Placed {", "    field reference string", "  }", "  event Closed {", "  }", "  command {"}, method("orderId", "Place"),
+				[]string{"  }", "  command Admin {", "    basePath = \"admin\""}, method("orderId", "Reopen"),
+				[]string{"  }", "  command Warehouse {", "    basePath = \"wh\""}, method("orderId", "Pick"), method("orderId", "Pack"),
+				[]string{"  }", "  command Billing {", "    basePath = \"billing\""}, method("orderId", "Charge"),
+				[]string{"  }", "}"})...),
+			"shop/v1/customer.j5s": j5s(cat([]string{"package shop.v1", "", "entity Customer {", "  key customerId key:id62 {", "    primary = true", "  }", "  data name string", "  status ACTIVE",
+				"  event Registered {", "    field name string", "  }", "  command {"}, method("customerId", "Register"), method("customerId", "Rename"), []string{"  }", "}"})...),
+			"audit/v1/entry.j5s": j5s("package audit.v1", "import shop.v1", "", "object Entry {", "  field entryId key:uuid", "  field order object:shop.v1.OrderState", "}"),
+		},
+	})
+
+	// 12. a main-package object that has the name a service method's implicit request message gets
+	// (GetOrderRequest), defined in another file than the service, and referenced from a third.
+	out = append(out, &Program{
+		Name:     "builtin/request_name_clash",
+		Packages: []string{"shop.v1"},
+		Files: map[string]string{
+			"shop/v1/a_types.j5s": j5s("package shop.v1", "", "object GetOrderRequest {", "  field note string", "}"),
+			"shop/v1/m_service.j5s": j5s(append([]string{"package shop.v1", "", "object Order {", "  field orderId key:uuid", "}"}, svc("Order", "orderId")...)...),
+			"shop/v1/z_user.j5s": j5s("package shop.v1", "", "object Holder {", "  field req object:GetOrderRequest", "}"),
+		},
+	})
 	return out
 }
